@@ -205,7 +205,7 @@ def float_strings(case):
     for v in case.get("env", {}).values():
         out.add(v)
         for piece in v.split(","):
-            out.add(piece.strip(" \t\n\v\f\r"))
+            out.add(go_trim_space(piece))
     out.add("true")
     return out
 
@@ -377,6 +377,26 @@ def run_model(cases):
         for part in ex.map(lambda s_: _run_model_shard([l for _, l in s_], [i for i, _ in s_]), sh_l):
             res.update(part)
     return res
+
+
+# ---------------------------------------------------------------------------------------
+# Go's notion of white space on byte strings (python str, one code point per byte)
+# ---------------------------------------------------------------------------------------
+
+_GO_SPACE = re.compile("[ \t\n\v\f\r]|\xc2[\x85\xa0]|\xe1\x9a\x80|\xe2\x80[\x80-\x8a\xa8\xa9\xaf]|\xe2\x81\x9f|\xe3\x80\x80")
+_GO_LEAD = re.compile("^(?:%s)+" % _GO_SPACE.pattern)
+_GO_TRAIL = re.compile("(?:%s)+$" % _GO_SPACE.pattern)
+
+
+def go_trim_space(s):
+    """strings.TrimSpace on the UTF-8 bytes of s (unicode.IsSpace: ASCII blanks, U+0085, U+00A0, U+1680, U+2000-200A,
+    U+2028, U+2029, U+202F, U+205F, U+3000)"""
+    return _GO_TRAIL.sub("", _GO_LEAD.sub("", s))
+
+
+def go_fields(s):
+    """strings.Fields on the UTF-8 bytes of s"""
+    return [x for x in _GO_SPACE.split(s) if x != ""]
 
 
 # ---------------------------------------------------------------------------------------
